@@ -56,20 +56,17 @@ def programs(draw):
         else:
             spec['src'] = draw(any_src(fr_resp))
             spec['sub'] = draw(gen.sub_spec(full_credit=False))
-            if draw(st.integers(0, 2)) == 0:
-                # a subscriber that still asks for more after it has cancelled (Reactive Streams 3.6: legal, to be ignored)
-                spec['sub'] = dict(spec['sub'], request_after_cancel=True)
+            # subscribers go on asking for more after they have cancelled whenever the program says so (Reactive Streams 3.6:
+            # legal, to be ignored)
+            spec['sub'] = dict(spec['sub'], request_after_cancel=True)
             if spec['src'].get('pace') and draw(st.booleans()):
                 # enough credit for a paced source to pull everything at once: what it then holds is a backlog
                 spec['sub'] = dict(spec['sub'], n0=gen.MAXN)
         if k == 'ch':
             spec['rsrc'] = draw(st.one_of(st.none(), any_src(fr_req)))
             spec['rsub'] = draw(st.one_of(st.none(), gen.sub_spec(False), gen.sub_spec(False)))
-            if draw(st.integers(0, 2)) == 0:
-                # subscribers that still ask for more after they have cancelled (legal, to be ignored)
-                spec['sub'] = dict(spec['sub'], request_after_cancel=True)
-                if spec['rsub'] is not None:
-                    spec['rsub'] = dict(spec['rsub'], request_after_cancel=True)
+            if spec['rsub'] is not None:
+                spec['rsub'] = dict(spec['rsub'], request_after_cancel=True)
         inter.append(spec)
     single = st.one_of(
         st.just(('start',)),
@@ -189,6 +186,63 @@ def shard(tier, seed, n):
     return stats
 
 
+# ---- a foreign peer that cancels and then still sends credit for the cancelled direction
+
+def peer_cancel_matrix():
+    out = []
+    for real in ('c', 's'):
+        for kind in ('gen', 'agen', 'manual', 'rx4bp'):
+            for gap in (0, 2):
+                for n in (1, 5):
+                    out.append({'peer_cancel': True, 'real': real, 'kind': kind, 'gap': gap, 'n': n, 'msg': bool((gap + n) % 2)})
+    return out
+
+
+def peer_cancel_prop(case):
+    """The real endpoint answers a channel with one of the library's sources; the scripted peer (whose own direction stays
+    open, so the channel stays registered) sends CANCEL and afterwards REQUEST_N: the cancelled source is not touched again."""
+    real = case['real']
+    raw = 'c' if real == 's' else 's'
+    spec = {'k': 'ch', 'side': raw, 'req': [3, 0], 'src': {'kind': case['kind'], 'els': [[4, 0]] * 8, 'end': 'sep', 'awaits': 0},
+            'sub': {'n0': 2, 'refill': 0}, 'rsrc': {'kind': 'manual', 'els': [[4, 0]] * 3, 'end': 'sep'}, 'rsub': {'n0': 2, 'refill': 0}}
+    ops = [['start'], ['tick', 4], ['rawf', 0, 'cancel', None]] + ([['tick', case['gap']]] if case['gap'] else []) + \
+          [['mark', 'cancelled'], ['rawf', 0, 'request_n', case['n']], ['tick', 5], ['settle']]
+    prog = {'cfg': {'msg': case['msg'], 'frag': [None, None], 'rbuf': [1024, 1024], 'raw': raw}, 'inter': [spec], 'ops': ops,
+            'heal': False}
+    tr = run_program(prog)
+    vs = []
+    log = tr.world.log
+    cancel_recv = next((e['seq'] for e in tr.world.recv.get(real, []) if e['f']['type'] == 'CANCEL'), None)
+    if cancel_recv is not None:
+        late = [e for e in log if e['side'] == real and e['ev'] in ('hand', 'gen_start', 'pub_request') and e['seq'] > cancel_recv
+                and e.get('dir') == 'resp']
+        if late:
+            vs.append(common.viol('production_after_cancel', '%s:production_after_cancel:%s:credit_after_cancel' % (PID, case['kind']),
+                           what=sorted(set(e['ev'] for e in late)), n=len(late)))
+        sent_after = [e for e in log if e['ev'] == 'queued' and e['side'] == real and e.get('ftype') == 'PayloadFrame'
+                      and e['seq'] > cancel_recv]
+        if sent_after:
+            vs.append(common.viol('payload_after_cancel', '%s:payload_queued_after_cancel:%s:credit_after_cancel' % (PID, case['kind']),
+                           n=len(sent_after)))
+    vs += monitors.mon_no_loop_errors(tr, PID)
+    info['nt'] = True
+    info['classes'] = ['part=peer_cancels_then_credits', 'source=' + case['kind']]
+    return vs
+
+
+def peer_cancel_shard(tier, seed):
+    common.use_repo()
+    stats = common.Stats()
+    known = common.Known(PID)
+    for case in peer_cancel_matrix():
+        vs = peer_cancel_prop(case)
+        stats.case(case, True, info.get('classes', ()), sample_limit=1)
+        for v in common.judge(stats, known, case, vs):
+            if not any(v['sig'] == vv['sig'] for vv, _ in stats.violations):
+                stats.violations.append((v, case))
+    return stats
+
+
 # ---- cancellation through the Rx / ReactiveX requester adapters (dispose of the result observable)
 
 RX_VARIANTS = ('rx3', 'rx4', 'rx3/core', 'rx4/core')
@@ -252,6 +306,7 @@ def run(tier, seed):
                                                              for s in common.shard_seeds(seed, nsh)]
     nrx = 480 if tier == 'quick' else 12000
     jobs += [('rx_shard', dict(tier=tier, seed=s + 7777, n=nrx // 8)) for s in common.shard_seeds(seed, 8)]
+    jobs.append(('peer_cancel_shard', dict(tier=tier, seed=seed)))
     stats = common.run_shards_multi(__name__, jobs)
     return common.finish(PID, tier, seed, LEVEL, RULE, stats, t0, ASSUMPTIONS)
 
@@ -259,6 +314,8 @@ def run(tier, seed):
 def replay(path):
     common.use_repo()
     case = common.load_replay(path)
+    if case.get('peer_cancel'):
+        return common.report_replay(PID, path, peer_cancel_prop(case))
     if 'model' in case and 'ops' not in case:
         return common.report_replay(PID, path, rx_prop(case))
     return common.report_replay(PID, path, prop(case))
